@@ -422,8 +422,8 @@ theorem u8x1_sse4_eq_portable (p : Nat) (row : List Int) (start : Nat) (ks : Lis
   Fir.Proofs.u8x1_sse4_pixel_eq_portable p row start ks
 
 theorem u8x1_sse4_source_as_modelled :
-    Fir.Gen.u8x1_sse4_one_row_skeleton = "_mm_setzero_si128() ; normalizer.precision() ; chunks_exact(8) ; remainder() ; _mm_loadu_si128(k.as_ptr() as *const __m128i) ; simd_utils::loadl_epi64(src_row, x) ; _mm_cvtepu8_epi16(pixels_u8x8) ; _mm_add_epi32(result_i32x4, _mm_madd_epi16(pixels_i16x8, coeffs_i16x8)) ; chunks_exact(4) ; remainder() ; next() ; simd_utils::loadl_epi64(k, 0) ; simd_utils::loadl_epi32(src_row, x) ; _mm_cvtepu8_epi16(pixels_u8x4) ; _mm_add_epi32(result_i32x4, _mm_madd_epi16(pixels_i16x4, coeffs_i16x4)) ; _mm_storeu_si128(buf.as_mut_ptr() as *mut __m128i, result_i32x4) ; sum() ; normalizer.clip(result_i32)" ∧
-    Fir.Gen.u8x1_sse4_four_rows_skeleton = "_mm_setzero_si128() ; normalizer.precision() ; chunks_exact(8) ; remainder() ; _mm_loadu_si128(k.as_ptr() as *const __m128i) ; simd_utils::loadl_epi64(src_rows[i], x) ; _mm_cvtepu8_epi16(pixels_u8x8) ; _mm_add_epi32(result_i32x4[i], _mm_madd_epi16(pixels_i16x8, coeffs_i16x8)) ; chunks_exact(4) ; remainder() ; next() ; simd_utils::loadl_epi64(k, 0) ; simd_utils::loadl_epi32(src_rows[i], x) ; _mm_cvtepu8_epi16(pixels_u8x4) ; _mm_add_epi32(result_i32x4[i], _mm_madd_epi16(pixels_i16x4, coeffs_i16x4)) ; _mm_storeu_si128(buf.as_mut_ptr() as *mut __m128i, v) ; sum() ; normalizer.clip(v)" := by
+    Fir.Gen.u8x1_sse4_one_row_skeleton = "_mm_setzero_si128() ; normalizer.precision() ; chunks_exact(8) ; remainder() ; _mm_loadu_si128(k.as_ptr() as *const __m128i) ; simd_utils::loadl_epi64(src_row, x) ; _mm_cvtepu8_epi16(pixels_u8x8) ; _mm_add_epi32(result_i32x4, _mm_madd_epi16(pixels_i16x8, coeffs_i16x8)) ; chunks_exact(4) ; remainder() ; next() ; simd_utils::loadl_epi64(k, 0) ; simd_utils::loadl_epi32(src_row, x) ; _mm_cvtepu8_epi16(pixels_u8x4) ; _mm_add_epi32(result_i32x4, _mm_madd_epi16(pixels_i16x4, coeffs_i16x4)) ; _mm_storeu_si128(buf.as_mut_ptr() as *mut __m128i, result_i32x4) ; sum() ; normalizer.clip(result_i32) | let initial = 1 << (normalizer.precision() - 1) ; let mut buf = [0, 0, 0, 0, initial]" ∧
+    Fir.Gen.u8x1_sse4_four_rows_skeleton = "_mm_setzero_si128() ; normalizer.precision() ; chunks_exact(8) ; remainder() ; _mm_loadu_si128(k.as_ptr() as *const __m128i) ; simd_utils::loadl_epi64(src_rows[i], x) ; _mm_cvtepu8_epi16(pixels_u8x8) ; _mm_add_epi32(result_i32x4[i], _mm_madd_epi16(pixels_i16x8, coeffs_i16x8)) ; chunks_exact(4) ; remainder() ; next() ; simd_utils::loadl_epi64(k, 0) ; simd_utils::loadl_epi32(src_rows[i], x) ; _mm_cvtepu8_epi16(pixels_u8x4) ; _mm_add_epi32(result_i32x4[i], _mm_madd_epi16(pixels_i16x4, coeffs_i16x4)) ; _mm_storeu_si128(buf.as_mut_ptr() as *mut __m128i, v) ; sum() ; normalizer.clip(v) | let initial = 1 << (normalizer.precision() - 1) ; let mut buf = [0, 0, 0, 0, initial]" := by
   constructor <;> rfl
 
 /-! ### two-channel 8-bit images: the SSE4.1 horizontal kernels of U8x2 (src/convolution/u8x2/sse4.rs)
@@ -732,8 +732,8 @@ theorem u8x1_avx2_eq_sse4 (p : Nat) (hp4 : 4 ≤ p) (row : List Int) (start : Na
   rw [u8x1_avx2_eq_portable p hp4, u8x1_sse4_eq_portable]
 
 theorem u8x1_avx2_source_as_modelled :
-    Fir.Gen.u8x1_avx2_one_row_skeleton = "_mm_setzero_si128() ; normalizer.precision() ; chunks_exact(16) ; remainder() ; _mm256_loadu_si256(k.as_ptr() as *const __m256i) ; simd_utils::loadu_si128(src_row, x) ; _mm256_cvtepu8_epi16(pixels_u8x16) ; _mm256_add_epi32(result_i32x8, _mm256_madd_epi16(pixels_i16x16, coeffs_i16x16),) ; chunks_exact(8) ; remainder() ; next() ; _mm_loadu_si128(k.as_ptr() as *const __m128i) ; simd_utils::loadl_epi64(src_row, x) ; _mm_cvtepu8_epi16(pixels_u8x8) ; _mm256_set_m128i(zero, _mm_madd_epi16(pixels_i16x8, coeffs_i16x8)) ; hsum_i32x8_avx2(result_i32x8) ; normalizer.clip(result_i32) | result_i32 += src_row.get_unchecked(x).0 as i32 * coeff_i32" ∧
-    Fir.Gen.u8x1_avx2_four_rows_skeleton = "_mm_setzero_si128() ; normalizer.precision() ; chunks_exact(16) ; remainder() ; _mm256_loadu_si256(k.as_ptr() as *const __m256i) ; simd_utils::loadu_si128(src_rows[i], x) ; _mm256_cvtepu8_epi16(pixels_u8x16) ; _mm256_add_epi32(result_i32x8x4[i], _mm256_madd_epi16(pixels_i16x16, coeffs_i16x16),) ; chunks_exact(8) ; remainder() ; next() ; _mm_loadu_si128(k.as_ptr() as *const __m128i) ; simd_utils::loadl_epi64(src_rows[i], x) ; _mm_cvtepu8_epi16(pixels_u8x8) ; _mm256_set_m128i(zero, _mm_madd_epi16(pixels_i16x8, coeffs_i16x8)) ; hsum_i32x8_avx2(v) ; normalizer.clip(v) | result_i32x4[i] += src_rows[i].get_unchecked(x).0.to_owned() as i32 * coeff_i32" ∧
+    Fir.Gen.u8x1_avx2_one_row_skeleton = "_mm_setzero_si128() ; normalizer.precision() ; chunks_exact(16) ; remainder() ; _mm256_loadu_si256(k.as_ptr() as *const __m256i) ; simd_utils::loadu_si128(src_row, x) ; _mm256_cvtepu8_epi16(pixels_u8x16) ; _mm256_add_epi32(result_i32x8, _mm256_madd_epi16(pixels_i16x16, coeffs_i16x16),) ; chunks_exact(8) ; remainder() ; next() ; _mm_loadu_si128(k.as_ptr() as *const __m128i) ; simd_utils::loadl_epi64(src_row, x) ; _mm_cvtepu8_epi16(pixels_u8x8) ; _mm256_set_m128i(zero, _mm_madd_epi16(pixels_i16x8, coeffs_i16x8)) ; hsum_i32x8_avx2(result_i32x8) ; normalizer.clip(result_i32) | let initial = _mm256_set1_epi32(1 << (normalizer.precision() - 4)) ; result_i32 += src_row.get_unchecked(x).0 as i32 * coeff_i32" ∧
+    Fir.Gen.u8x1_avx2_four_rows_skeleton = "_mm_setzero_si128() ; normalizer.precision() ; chunks_exact(16) ; remainder() ; _mm256_loadu_si256(k.as_ptr() as *const __m256i) ; simd_utils::loadu_si128(src_rows[i], x) ; _mm256_cvtepu8_epi16(pixels_u8x16) ; _mm256_add_epi32(result_i32x8x4[i], _mm256_madd_epi16(pixels_i16x16, coeffs_i16x16),) ; chunks_exact(8) ; remainder() ; next() ; _mm_loadu_si128(k.as_ptr() as *const __m128i) ; simd_utils::loadl_epi64(src_rows[i], x) ; _mm_cvtepu8_epi16(pixels_u8x8) ; _mm256_set_m128i(zero, _mm_madd_epi16(pixels_i16x8, coeffs_i16x8)) ; hsum_i32x8_avx2(v) ; normalizer.clip(v) | let initial = _mm256_set1_epi32(1 << (normalizer.precision() - 4)) ; result_i32x4[i] += src_rows[i].get_unchecked(x).0.to_owned() as i32 * coeff_i32" ∧
     Fir.Gen.u8x1_avx2_hsum8_skeleton = "hsum_i32x8_avx2(v: __m256i) ; _mm_add_epi32(_mm256_castsi256_si128(v), _mm256_extracti128_si256::<1>(v)) ; hsum_epi32_avx(sum128)" ∧
     Fir.Gen.u8x1_avx2_hsum4_skeleton = "hsum_epi32_avx(x: __m128i) ; _mm_unpackhi_epi64(x, x) ; _mm_add_epi32(hi64, x) ; _mm_shuffle_epi32::<I>(sum64) ; _mm_add_epi32(sum64, hi32) ; _mm_cvtsi128_si32(sum32) | const I: i32 = (2 << 6) | (3 << 4) | 1" := by
   refine ⟨rfl, rfl, rfl, rfl⟩
